@@ -7,21 +7,60 @@ open Gonnx
 
 def fmax (l : List Float) : Float := l.foldl (fun a b => if b > a then b else a) (l.headD 0.0)
 
-/-- gorgonia's lane kernel: running maximum started from `anchor`, compared with the lane's
-elements 1…n-1; exponentials of the shifted values; scaling by the reciprocal of their sum -/
-def softmaxLane (anchor : Float) (l : List Float) : List Float :=
-  let m := l.tail.foldl (fun a b => if b > a then b else a) anchor
-  let e := l.map fun x => Float.exp (x - m)
-  let s := 1.0 / e.foldl (· + ·) 0.0
-  e.map (· * s)
+def floatLane : LaneArith Float :=
+  { exp := Float.exp, log := Float.log, add := (· + ·), sub := (· - ·), mul := (· * ·), div := (· / ·),
+    zero := 0.0, one := 1.0, gt := fun a b => a > b }
 
-def logSoftmaxLane (anchor : Float) (l : List Float) : List Float :=
-  let m := l.tail.foldl (fun a b => if b > a then b else a) anchor
-  let s := (l.map fun x => Float.exp (x - m)).foldl (· + ·) 0.0
-  l.map fun x => x - m - Float.log s
+/-- gorgonia's lane kernels (`Gonnx.softmaxLaneG` / `logSoftmaxLaneG`) on IEEE doubles -/
+def softmaxLane (anchor : Float) (l : List Float) : List Float := softmaxLaneG floatLane anchor l
+
+def logSoftmaxLane (anchor : Float) (l : List Float) : List Float := logSoftmaxLaneG floatLane anchor l
+
+/-- gorgonia's float ArgMax lane kernel (`execution.ArgmaxF32/F64`): the scan RETURNS at the first NaN or
++Inf it meets behind position 0; otherwise strict `>` against the running maximum (never true while that
+is NaN) -/
+def gorgoniaArgmaxLane (l : List Float) : Nat :=
+  match l with
+  | [] => 0
+  | x :: xs =>
+    let rec go (best : Float) (bi : Nat) (i : Nat) : List Float → Nat
+      | [] => bi
+      | y :: ys => if y.isNaN || (y.isInf && y > 0.0) then i else if y > best then go y i (i+1) ys else go best bi (i+1) ys
+    go x 0 1 xs
+
+/-- ONNX / numpy.argmax on one lane: the first NaN if there is one, else the first occurrence of the maximum -/
+def numpyArgmaxLane (l : List Float) : Nat :=
+  match l.findIdx? Float.isNaN with
+  | some i => i
+  | none => argmaxList (fun a b => a < b) l
+
+/-- ArgMax along a normalised axis with a lane function (index structure of `Spec.argmax`) -/
+def argmaxWith (pick : List Float → Nat) (t : Tensor Float) (ax : Nat) (keepdims : Bool) : Tensor Int :=
+  let n := dim t.shape ax
+  let outShape := if keepdims then t.shape.set ax 1 else t.shape.eraseIdx ax
+  ofFn outShape fun idx =>
+    let elt (k : Nat) : Float := t.get (if keepdims then idx.set ax k else idx.take ax ++ [k] ++ idx.drop ax)
+    ((pick ((List.range n).map elt) : Nat) : Int)
 
 def runReduceOp (op : String) (attrs : Json) (ins : List (Option DT)) : Answer :=
   match op, ins with
+  | "ArgMax", [some ⟨dt, _, some f⟩] =>
+    -- float values with NaN / infinities / signed zeros (special-value stream): valid requests only
+    let axis := attrInt attrs "axis" 0
+    let keep := attrInt attrs "keepdims" 1 != 0
+    let names := attrNames attrs
+    match Spec.normAxis f.shape.length axis with
+    | some ax =>
+      if names.any (fun n => n != "axis" && n != "keepdims") || !(dt == .f32 || dt == .f64) || (f.shape.length == 1 && !keep) then
+        { model := { status := "unmodelled" } }
+      else
+        let m := argmaxWith gorgoniaArgmaxLane f ax keep
+        let sp := argmaxWith numpyArgmaxLane f ax keep
+        { model := { status := "ok", outs := [some (DT.mk .i64 m none)] },
+          spec := { domain := "must", outs := some [some (DT.mk .i64 sp none)] },
+          tags := ["argmax-float", s!"rank{f.shape.length}", if keep then "keep" else "nokeep"],
+          guard := if m.data != sp.data then ["argmax.scan_returns_at_first_nan_or_inf"] else [] }
+    | none => { model := { status := "unmodelled" } }
   | "ArgMax", [some X] =>
     let names := attrNames attrs
     if names.any (fun n => n != "axis" && n != "keepdims" && n != "select_last_index") then
